@@ -202,7 +202,16 @@ func (l *kvsLock) supportTimeout(ver string) {
 		ExpiresAt: cast.Ptr(time.Now().Add(l.dlp.leaseTTL)),
 	})
 	if err != nil {
-		l.dlp.logger.Debugf("supportTimeout raise detected, just do nothing for the key=%s, err=%s", l.key, err)
+		if errors.Is(err, errors.ErrNotExist) || errors.Is(err, errors.ErrConflict) || !l.isLocked() {
+			l.dlp.logger.Debugf("supportTimeout raise detected, just do nothing for the key=%s, err=%s", l.key, err)
+			return
+		}
+		// the storage error is transient, the lock is still held: try again soon, before the lease is over
+		l.dlp.logger.Warnf("supportTimeout could not refresh the key=%s, will try again: %s", l.key, err)
+		retryFuture := timeout.Call(func() { l.supportTimeout(ver) }, l.dlp.leaseTTL/8)
+		if !l.future.CompareAndSwap(future, retryFuture) {
+			retryFuture.Cancel()
+		}
 		return
 	}
 	newFuture := timeout.Call(func() { l.supportTimeout(r.Version) }, l.dlp.leaseTTL/2)
